@@ -7,6 +7,7 @@ pub mod c02;
 pub mod c03;
 pub mod c06;
 pub mod c07;
+pub mod c08;
 pub mod c09;
 pub mod c10;
 pub mod c11;
@@ -44,6 +45,10 @@ pub fn lookup(id: &str) -> Option<Prop> {
         "C07" => Prop {
             check: c07::check,
             replay: c07::replay,
+        },
+        "C08" => Prop {
+            check: c08::check,
+            replay: c08::replay,
         },
         "C09" => Prop {
             check: c09::check,
